@@ -235,7 +235,7 @@ func exploreOnce(t *testing.T, id int, rnd *rand.Rand, mode string) (rec0 Record
 				acts = append(acts, act{"delete", ""})
 			}
 			// a whole-store deletion at a quiet moment: nothing parked at a gate, no append in flight, something stored
-			if wipeLeft && len(parked) == 0 && !busy && nextBatch > 0 && nextBatch < len(c.script) && st.Height() > 0 {
+			if wipeLeft && nextBatch > 0 && nextBatch < len(c.script) {
 				acts = append(acts, act{"wipe", ""})
 			}
 			if stopLeft && nextBatch > 0 {
@@ -322,7 +322,29 @@ func exploreOnce(t *testing.T, id int, rnd *rand.Rand, mode string) (rec0 Record
 				}()
 			case "wipe":
 				wipeLeft = false
-				x := context.WithValue(bg, procKey{}, "X") // not gated: the deletion itself is not what is explored here
+				// first let everything that is under way finish (readers that found nothing stay parked in their wait)
+				for k := 0; k < 2000; k++ {
+					sc.mu.Lock()
+					var p0 string
+					for p := range sc.gates {
+						if p0 == "" || p < p0 {
+							p0 = p
+						}
+					}
+					sc.mu.Unlock()
+					if p0 == "" {
+						break
+					}
+					sc.release(p0)
+				}
+				if st.Height() == 0 {
+					break
+				}
+				x := context.WithValue(bg, procKey{}, "X")
+				// the deletion itself is not what is explored here: every gate is open while it runs
+				sc.mu.Lock()
+				sc.pass = true
+				sc.mu.Unlock()
 				tl, terr := st.Tail(x)
 				hd, herr := st.Head(x)
 				if terr == nil && herr == nil {
@@ -332,6 +354,10 @@ func exploreOnce(t *testing.T, id int, rnd *rand.Rand, mode string) (rec0 Record
 						}
 					}
 				}
+				synctest.Wait()
+				sc.mu.Lock()
+				sc.pass = false
+				sc.mu.Unlock()
 			case "stop":
 				stopLeft = false
 				mu.Lock()
